@@ -285,7 +285,16 @@ def generate(rng, focus, tier="quick"):
                 emit(order_op())
         elif r < 0.68:
             a = rng.choice(assets)
-            b, k = _quote(rng, sh["quotes"][a])
+            hist = sh.setdefault("qhist", {}).setdefault(a, [tuple(cfg["quotes0"][a])])
+            r4_ = rng.random()
+            if r4_ < 0.15:
+                b, k = rng.choice(hist)                      # exactly an earlier quote of this asset again
+            elif r4_ < 0.2:
+                pb, pk = hist[-1]
+                b, k = (pk, round(pk + 0.01, 4))             # the new bid is exactly the previous ask
+            else:
+                b, k = _quote(rng, sh["quotes"][a])
+            hist.append((b, k))
             sh["quotes"][a] = min(b, k)
             emit({"k": "quote", "asset": a, "bid": b, "ask": k})
         elif r < 0.76:
@@ -329,6 +338,10 @@ def generate(rng, focus, tier="quick"):
                                if "C03" in focus else        # C03 quantifies over all real-valued commissions (rebates)
                                rng.choice([0.0, 0.0, 1.0, 2.5, round(rng.uniform(0, 50), 2)])),
                       "oid": oid, "same_oid": same})
+                if rng.random() < 0.15:
+                    # stamped later than the broker clock (the portfolio API takes any time >= its own clock): this
+                    # position and its portfolio then run ahead of every other clock
+                    ops[-1]["ahead"] = rng.choice([1, 60, 3600, 6 * 3600, DAY, 2 * DAY])
             sh["held"].add((pid, a))
         elif r < 0.96:
             emit({"k": "broker2", "pid": rng.choice(PIDS), "funds": rng.choice([1e3, 1e5, 77.7]),
@@ -902,7 +915,8 @@ class Exec(object):
         Both are only reachable after the broker clock has been moved backwards.
         """
         m = self.m
-        if any(pos.clock is not None and t < pos.clock for p in m.pfs.values() for pos in p.pos.values()):
+        if any(pos.clock is not None and t < pos.clock for p in m.pfs.values() for pos in p.pos.values()) or \
+                any(p.pos and t < p.clock for p in m.pfs.values()):
             return "clock_regress", "update(earlier than the last mark of an open position)"
         if is_open_ref(t) and any(p.pending and t < p.clock for p in m.pfs.values()):
             return "clock_regress_pending", "update(earlier than the clock of a portfolio with pending orders)"
@@ -1210,7 +1224,10 @@ class Exec(object):
         if m.now < p.clock or (a in p.pos and p.pos[a].clock is not None and m.now < p.pos[a].clock):
             return False
         oid = "direct-%s" % (op["oid"],)
-        tstamp = ts(m.now)
+        when = m.now + int(op.get("ahead", 0))
+        tstamp = ts(when)
+        if op.get("ahead"):
+            ctx.fault("transaction_stamped_ahead_of_broker_clock")
         txn = Transaction(a, int(op["qty"]), tstamp, float(op["price"]), oid, commission=float(op["comm"]))
         ok, exc = self._call(s.broker.portfolios[pid].transact_asset, txn)
         ctx.event("pftxn", pid, a, op["qty"], float(op["price"]), float(op["comm"]), ok)
@@ -1221,7 +1238,7 @@ class Exec(object):
         for c in s.captured:
             if c["oid"] == oid and not c.get("booked"):
                 c["booked"] = True
-                self._apply_fill(c, m.now, tstamp, direct=True)
+                self._apply_fill(c, when, tstamp, direct=True)
         ctx.probe("direct_transaction")
         if op.get("same_oid"):
             ctx.probe("direct_transaction_repeating_order_id_and_time")
